@@ -22,7 +22,7 @@ import io
 import json
 import zipfile
 
-from .data import encode_value
+from .data import dhash, encode_value
 
 
 class FormatError(Exception):
@@ -204,7 +204,7 @@ def encode_model(mtree, *, key_map=None, value_map=None, user_meta=None, typed=N
             continue
         if seen is None:
             first_seen[key] = (pos, m.kind)
-        custom = m.did != hash(m.data)
+        custom = m.did != dhash(m.data)
         if isinstance(m.data, str) and not custom and not typed:
             nodes.append([ppos, m.data])
             continue
